@@ -23,6 +23,8 @@ pub fn roots(tier: &str) -> Vec<VaultRoot> {
             }
         }
     }
+    // a native vault over an ibc voucher denom
+    v.push(VaultRoot { label: "cw20=false/fees1/first1000000/preloan=true/ibc-denom".into(), cw20: false, fees: FEES[1], first: 1_000_000, pre_loan: true });
     v
 }
 
